@@ -23,7 +23,7 @@ def one(patch: str, pids):
             r = subprocess.run(["/venv/bin/python", "/verif/sa/check.py", pid, "--repo", str(tmp), "--no-evidence"], capture_output=True, text=True)
             first = ""
             if r.returncode:
-                ls = [l for l in r.stdout.splitlines() if not l.startswith(f"[{pid}]") and not l.startswith("VIOLATION") and not l.startswith("      ")]
+                ls = [l for l in r.stdout.splitlines() if not l.startswith(f"[{pid}]") and not l.startswith("VIOLATION") and not l.startswith("      ") and not l.startswith("KNOWN-FINDING")]
                 first = (ls[0] if ls else r.stderr.strip().splitlines()[-1] if r.stderr.strip() else "?")[:260]
             out[pid] = (r.returncode, first)
     finally:
